@@ -20,6 +20,37 @@ def implFinalVars (c : Case) : Option Vars :=
 def sameVars (a b : Vars) : Bool :=
   showVars a == showVars b
 
+/-- Recogniser of one specific history shape (known finding `inclusive_join_stale_tracker`, D33): an inclusive JOIN
+(two or more incoming flows) announces its outgoing flows (`flow J …` — it has fired) at a moment when a token that an
+earlier `FlowTrace` announced as travelling on one of J's incoming flows has not yet visited J. The join decided on a
+picture of its flow tracker that did not yet contain that `FlowTrace` (the tracker's lock only covers the first
+activation; the tracer's broadcast to the tracker races with the arriving token). Counting is per join:
+announced arrivals minus visits. -/
+def staleTrackerFire (c : Case) : Option String := Id.run do
+  let joins := c.proc.nodes.filter (fun n => n.kind == .incl && n.ins.length ≥ 2)
+  if joins.isEmpty then return none
+  let mut pending : List (String × Int) := joins.map (fun n => (n.id, 0))
+  let bump := fun (pend : List (String × Int)) (j : String) (d : Int) =>
+    pend.map (fun (x : String × Int) => if x.1 == j then (x.1, x.2 + d) else x)
+  for (obs, _) in c.segs do
+    for o in obs do
+      match words o with
+      | ["visit", n] => pending := bump pending n (-1)
+      | ["flow", src, fl] =>
+        -- a join that fires while an announced token is still on its way
+        match pending.find? (·.1 == src) with
+        | some (_, k) => if k > 0 then return some src
+        | none => pure ()
+        for pr in commaList fl do
+          match pr.splitOn ":" with
+          | [_, f] =>
+            match c.proc.flow? f with
+            | some sf => pending := bump pending sf.dst 1
+            | none => pure ()
+          | _ => pure ()
+      | _ => pure ()
+  return none
+
 def judge (c : Case) : CaseResult := Id.run do
   if !c.bad.isEmpty then return { bad := c.bad }
   let mut r : CaseResult := {}
@@ -49,9 +80,15 @@ def judge (c : Case) : CaseResult := Id.run do
   -- being reported as a model/implementation disagreement.
   let inCohortLand (m : Replay) : Bool := (m.causesAt.getD m.failAt m.causes).contains "inclusive_cohort"
   let tolerated := !(good m) && (inCohortLand m0 || inCohortLand m1)
+  -- the stale-tracker race (D33) is not a step of the engine model (tokens run to quiescence between driver actions,
+  -- the tracker is always up to date there): a run the model cannot reproduce whose history shows that very shape is
+  -- attributed to that finding
+  let stale := if good m || tolerated then none else staleTrackerFire c
   let mut modelAgrees := true
   if tolerated then
     r := { r with infos := "model cannot resolve the race inside the inclusive-cohort protocol; attributed to inclusive_cohort" :: r.infos }
+  else if stale.isSome then
+    r := { r with infos := s!"inclusive join {stale.getD ""} fired while an announced token was still on its way (stale flow tracker); attributed to inclusive_join_stale_tracker" :: r.infos }
   else
     match m.oos with
     | some why =>
@@ -71,7 +108,8 @@ def judge (c : Case) : CaseResult := Id.run do
           r := { r with diffs := s!"final variables: model {showVars m.finalVars} impl {showVars implVars}" :: r.diffs }
   -- 2. specification (token game) against implementation
   -- the deviations the faithful model had logged when the token game first disagrees with the engine
-  let upTo := if tolerated then ["inclusive_cohort"] else (m.causesAt.getD i.failAt m.causes)
+  let upTo := if tolerated then ["inclusive_cohort"] else if stale.isSome then ["inclusive_join_stale_tracker"]
+    else (m.causesAt.getD i.failAt m.causes)
   let sig := if modelAgrees && !upTo.isEmpty then "+".intercalate upTo else "unexplained_deviation"
   let specFail : Option String :=
     match i.oos with
